@@ -23,6 +23,8 @@ def assumptions():
             "a new field may be placed before or after comment lines that directly trail its paragraph",
             "the text of an assigned field is free as long as it is `name:` + whole lines reading back as the value",
             "deleting the only field of a paragraph is outside the domain",
+            "characters Python treats as whitespace or line boundaries but the control-file format does not define (NBSP, VT, "
+            "FF, U+0085, U+2028...) are not used in assigned values (a value containing U+2028 is refused with ValueError)",
             "the model's own field reader defines 'value' (first line trimmed, comment lines dropped)"]
 
 
@@ -125,16 +127,56 @@ def ops_small(doc):
     return ops
 
 
+def sweep_chars():
+    return [chr(c) for c in range(0x21, 0x7f)] + list("éüЖ字ß")
+
+
+SWEEP_DOCS = [
+    [("par", [("A", "", "A: v\n"), ("Bb", "#cm\n", "Bb: v\n w\n"), ("C", "", "C: v\n")])],
+    [("par", [("A", "", "A: v\n")]), ("raw", "\n"), ("par", [("C", "", "C: v\n"), ("D", "", "D: v")])],
+]
+
+
 def units(tier, seed):
-    return [{"doc": d, "i": i} for i, d in enumerate(docs(seed))]
+    out = [{"doc": d, "i": i} for i, d in enumerate(docs(seed))]
+    cs = sweep_chars()
+    out += [{"sweep": cs[i:i + 16], "i": 1000 + i} for i in range(0, len(cs), 16)]
+    return out
 
 
 def unit_cost(u, tier):
+    if "sweep" in u:
+        return 1
     return sum(len(it[1]) for it in u["doc"] if it[0] == "par") ** 2
+
+
+def run_sweep(part, chars):
+    """one unusual character at a time inside assigned values (single- and multi-line), depth 1"""
+    for c in chars:
+        vals = ["x" + c + "y", c, "x\n y" + c, "x" + c + "\n " + c + "z"]
+        for spec in SWEEP_DOCS:
+            doc = _doc.from_spec(spec)
+            for pi, par in enumerate(_doc.pars(doc)):
+                for key in (par[-1].name, "N"):
+                    for val in vals:
+                        op = ("set", pi, key, val)
+                        nd, viol = _doc.run_last(spec, [], doc, op, NL)
+                        part.states += 1
+                        part.transitions += 1
+                        part.traces += 1
+                        part.evaluations += 1
+                        part.nontrivial += 1
+                        for sig, exp, obs in viol:
+                            part.violation(sig, {"doc": spec, "history": [op]}, exp, obs, rank=1)
+                        part.outcomes["sweep/" + ("ok" if not viol else "violation")] += 1
+    part.sample({"doc": SWEEP_DOCS[0], "history": [("set", 0, "N", "x" + chars[0] + "y")]})
+    return part
 
 
 def run_unit(u, tier, seed):
     part = core.Part()
+    if "sweep" in u:
+        return run_sweep(part, u["sweep"])
     td, gd = (2, 3) if tier == "quick" else (3, 4)
     base = {"doc": u["doc"]}
     _doc.explore(part, u["doc"], ops_full, td, gd, NL, base, ops_small)
